@@ -52,9 +52,12 @@ type AbsCond struct {
 }
 
 type AbsModel struct {
-	Schema string    `json:"schema,omitempty"`
-	Types  []AbsType `json:"types"`
-	Conds  []AbsCond `json:"conds,omitempty"`
+	// APIStyle: build the protobuf the way API clients write it - metadata entries only for relations with a direct
+	// assignment - instead of the way the DSL transformer shapes it (an entry for every relation)
+	APIStyle bool      `json:"api_style,omitempty"`
+	Schema   string    `json:"schema,omitempty"`
+	Types    []AbsType `json:"types"`
+	Conds    []AbsCond `json:"conds,omitempty"`
 }
 
 func absRw(u *openfgav1.Userset) *AbsTree {
@@ -217,6 +220,9 @@ func protoModel(am *AbsModel) *openfgav1.AuthorizationModel {
 			if ar.File != "" {
 				rm.SourceInfo = &openfgav1.SourceInfo{File: ar.File}
 			}
+			if am.APIStyle && !hasThis(ar.Rw) {
+				continue
+			}
 			td.Metadata.Relations[ar.Name] = rm
 		}
 		m.TypeDefinitions = append(m.TypeDefinitions, td)
@@ -242,4 +248,19 @@ func protoModel(am *AbsModel) *openfgav1.AuthorizationModel {
 		}
 	}
 	return m
+}
+
+func hasThis(t *AbsTree) bool {
+	if t == nil {
+		return false
+	}
+	if t.K == "this" {
+		return true
+	}
+	for _, c := range t.Ch {
+		if hasThis(c) {
+			return true
+		}
+	}
+	return false
 }
